@@ -429,3 +429,105 @@ func runS9(c *core.Ctx) {
 		}
 	}
 }
+
+// R3: the field list returned by resolver.ResolveStruct is the cached, shared slice (the same
+// backing array for the encoder compiler, both decoders and every later compile of the type).
+// Callers may read it; writing an element, appending to a reslice of it (the in-place filter
+// idiom `nf := fv[:0]; nf = append(nf, f)`), or sorting it rewrites the cache for everyone.
+
+func init() {
+	register(&core.Rule{ID: "R3", Min: 3,
+		Doc: "The cached field list is read-only for its users: in every function that calls resolver.ResolveStruct, the returned slice (and any reslice of it bound to a local) is never the target of an element store, never the first argument of append, and never passed to sort.*; otherwise a compile of one codec changes the fields every later compile (other executor, other entry point, parent types) sees - output then depends on compile order.",
+		Run: runR3})
+}
+
+func runR3(c *core.Ctx) {
+	p := c.Prog
+	n := 0
+	for _, rel := range []string{"internal/encoder", "internal/decoder/jitdec", "internal/decoder/optdec"} {
+		pk := p.Pkg(rel)
+		if pk == nil {
+			continue
+		}
+		for _, fd := range core.FuncDecls(pk) {
+			if fd.Body == nil || strings.HasSuffix(p.Fset.Position(fd.Pos()).Filename, "_test.go") {
+				continue
+			}
+			// locals that alias the cached slice
+			alias := map[types.Object]bool{}
+			isCached := func(e ast.Expr) bool {
+				for {
+					switch x := ast.Unparen(e).(type) {
+					case *ast.CallExpr:
+						if o := p.Callee(x); o != nil && o.Name() == "ResolveStruct" && o.Pkg() != nil && core.Rel(o.Pkg().Path()) == "internal/resolver" {
+							return true
+						}
+						return false
+					case *ast.SliceExpr:
+						e = x.X
+					case *ast.Ident:
+						return alias[p.ObjectOf(x)]
+					default:
+						return false
+					}
+				}
+			}
+			for changed := true; changed; {
+				changed = false
+				ast.Inspect(fd.Body, func(nd ast.Node) bool {
+					if as, ok := nd.(*ast.AssignStmt); ok && len(as.Lhs) == len(as.Rhs) {
+						for i, l := range as.Lhs {
+							if id, ok := ast.Unparen(l).(*ast.Ident); ok && isCached(as.Rhs[i]) {
+								if o := p.ObjectOf(id); o != nil && !alias[o] {
+									alias[o] = true
+									changed = true
+								}
+							}
+						}
+					}
+					return true
+				})
+			}
+			if len(alias) == 0 {
+				continue
+			}
+			n++
+			fn := core.FuncName(pk, fd)
+			c.Analysed(fn)
+			bad := ""
+			var bpos token.Pos
+			ast.Inspect(fd.Body, func(nd ast.Node) bool {
+				switch x := nd.(type) {
+				case *ast.AssignStmt:
+					for _, l := range x.Lhs {
+						if ie, ok := ast.Unparen(l).(*ast.IndexExpr); ok && isCached(ie.X) && bad == "" {
+							bad, bpos = "stores into "+exprStr(l), x.Pos()
+						}
+						if se, ok := ast.Unparen(l).(*ast.SelectorExpr); ok {
+							if ie, ok := ast.Unparen(se.X).(*ast.IndexExpr); ok && isCached(ie.X) && bad == "" {
+								bad, bpos = "stores into "+exprStr(l), x.Pos()
+							}
+						}
+					}
+				case *ast.CallExpr:
+					if id, ok := x.Fun.(*ast.Ident); ok && id.Name == "append" && len(x.Args) > 0 && isCached(x.Args[0]) && bad == "" {
+						bad, bpos = "appends to "+exprStr(x.Args[0])+", a reslice of the cached list (in-place filter)", x.Pos()
+					}
+					if o := p.Callee(x); o != nil && o.Pkg() != nil && (o.Pkg().Path() == "sort" || o.Pkg().Path() == "slices") && len(x.Args) > 0 && isCached(x.Args[0]) && bad == "" {
+						bad, bpos = "reorders it with "+o.Pkg().Name()+"."+o.Name(), x.Pos()
+					}
+				}
+				return true
+			})
+			cn := fn + "/cached-fields-read-only"
+			if bad != "" {
+				c.Bad(cn, bpos, "%s %s: resolver.ResolveStruct hands out the cached slice itself, so the change is seen by the other executor's compiler and by every later compile of this struct (fields dropped or duplicated in their output depending on what was compiled first)", fn, bad)
+			} else {
+				c.OK(cn, fd.Pos(), "the cached field list is only read")
+			}
+		}
+	}
+	if n < 3 {
+		c.Undecided("resolver.ResolveStruct/users", token.NoPos, "only %d users found", n)
+	}
+}
